@@ -10,7 +10,6 @@ import (
 	"github.com/gabriel-vasile/mimetype"
 
 	"verifharness/internal/fw"
-	"verifharness/internal/lib"
 )
 
 // C12 — declared charsets are honoured.
@@ -247,11 +246,12 @@ func c12XML(r *rand.Rand) c12Doc {
 }
 
 func c12Judge(c *fw.Ctx, d c12Doc, L uint32) {
-	key := fw.InputKey(d.data, L, "Detect")
-	c.Trace(func() (string, any) { return key, fw.MkInCase(d.syntax, d.data, L, "Detect", d.expect) })
+	entry := pickEntry(c)
+	key := fw.InputKey(d.data, L, entry)
+	c.Trace(func() (string, any) { return key, fw.MkInCase(d.syntax, d.data, L, entry, d.expect) })
 	var m *mimetype.MIME
-	ok := c.Guard(key, func() any { return fw.MkInCase(d.syntax, d.data, L, "Detect", "panic") }, func() {
-		m = lib.Detect(d.data, L)
+	ok := c.Guard(key, func() any { return fw.MkInCase(d.syntax, d.data, L, entry, "panic") }, func() {
+		m = detectEntry(d.data, L, entry)
 	})
 	c.Eval(1)
 	if !ok {
@@ -279,7 +279,7 @@ func c12Judge(c *fw.Ctx, d c12Doc, L uint32) {
 	if got != d.expect {
 		c.Violate("declared-charset-not-honoured", key,
 			fmt.Sprintf("declared label %q (syntax %s) expected charset=%q, got %q in %s; document %s limit %d", d.label, d.syntax, d.expect, got, m.String(), fw.Quote(d.data, 160), L),
-			fw.InCase{Kind: d.typ, In: d.data, Limit: L, Entry: "Detect", Aux: d.expect, Note: d.syntax, InQ: fw.Quote(d.data, 160)})
+			fw.InCase{Kind: d.typ, In: d.data, Limit: L, Entry: entry, Aux: d.expect, Note: d.syntax, InQ: fw.Quote(d.data, 160)})
 	}
 	lclass := "generic"
 	low := lowerASCII(d.label)
@@ -437,6 +437,9 @@ func init() {
 			if err != nil {
 				fmt.Println("bad payload:", err)
 				return
+			}
+			if ic.Entry != "" && ic.Entry != "charset.FromPlain" {
+				forcedEntry = ic.Entry
 			}
 			d := c12Doc{data: ic.In, expect: ic.Aux, syntax: ic.Note, typ: ic.Kind, assert: true, label: "(replay)"}
 			c12Judge(c, d, ic.Limit)
